@@ -47,10 +47,24 @@ package ipfshttp
 //@   modifies postN, postOK
 
 // "success only if the daemon said so": 200 + clean end of the progress stream (see pinProgress body)
+// lastDecodeErr: what the progress decoder last returned
+//@ ghost var lastDecodeErr error
+//@ extern json.Decoder.Decode(v)
+//@   records lastDecodeErr = err
+//@   modifies *v
+
+// assumed: this package calls Err() only after the context's Done() channel fired, where it is non-nil
+//@ extern context.Context.Err()
+//@   ensures err != nil
+
+// "successful only if the daemon ends up holding that CID": the pin/add conversation counts as successful only when the
+// progress stream ended cleanly (the decoder reported io.EOF - not a dropped or garbled stream) and the request was
+// not cancelled meanwhile
 //@ func (ipfs *Connector) pinProgress
-//@   opts trusted
+//@   property C16
 //@   counts pinAddOK when err == nil
-//@   modifies nothing
+//@   ensures [success-means-a-clean-end-of-stream] err == nil ==> lastDecodeErr == io.EOF
+//@   modifies lastDecodeErr, heap(ipfsPinsResp)
 
 //@ func (ipfs *Connector) pinUpdate
 //@   property C16
@@ -71,7 +85,7 @@ package ipfshttp
 //@   ensures [ls-failure-is-an-error] postN == old(postN) + 1 && pinStatus == api.IPFSPinStatusError && pinAddOK == old(pinAddOK) && pinUpdateOK == old(pinUpdateOK) ==> err != nil || pinnedAs(pinStatus, pin.MaxDepth)
 //@   loop 1 (range pin.Origins[0:bound])
 //@     invariant pinAddOK == old(pinAddOK) && pinUpdateOK == old(pinUpdateOK) && postN == old(postN) + 1
-//@   modifies pinAddOK, pinUpdateOK, lastLs, postN, postOK, heap(api.Pin)
+//@   modifies pinAddOK, pinUpdateOK, lastLs, postN, postOK, heap(api.Pin), lastDecodeErr, heap(ipfsPinsResp)
 
 // "gives up with an error when a pin makes no progress for the configured time": the watchdog goroutine of Pin.
 // The time of last progress moves only when the number of fetched nodes strictly grows, and that number never shrinks.
